@@ -140,6 +140,60 @@ def write_evidence(pid, cfg, tier, seed, ev, wall, nviol, shards, notes):
     os.replace(p + ".tmp", p)
 
 
+def fuzz_stage(pid, cfg, hdir, tier, seed):
+    """Coverage-guided native fuzzing (go test -fuzz) of the property's byte-level target, thorough tier only.
+    Go's fuzzer cannot be pinned to a seed: the saved crashing input is the reproducible unit."""
+    import re
+    fz = cfg["fuzz"]
+    secs = int(os.environ.get("VERIF_FUZZTIME", fz.get("seconds", 300)))
+    tdir = os.path.join(hdir, "props", "testdata", "fuzz", fz["target"])
+    before = set(os.listdir(tdir)) if os.path.isdir(tdir) else set()
+    cache = tempfile.mkdtemp(prefix="verif-fuzzcache-", dir=scratch_root())
+    env = goenv()
+    env["GOCACHE"] = env.get("GOCACHE") or subprocess.run(["go", "env", "GOCACHE"], capture_output=True, text=True, env=env).stdout.strip()
+    env.update(VERIF_TIER=tier, VERIF_KF=os.path.join(HERE, "known_findings.json"), VERIF_OUT="")
+    args = ["go", "test", "-tags", "verif", "-vet=off", "-run", "^$", "-fuzz", "^%s$" % fz["target"], "-fuzztime", "%ds" % secs,
+            "-test.fuzzcachedir", cache, "./props"]
+    t0 = time.time()
+    try:
+        r = subprocess.run(args, cwd=hdir, env=env, stdout=subprocess.PIPE, stderr=subprocess.STDOUT, text=True, timeout=secs + 2400)
+        out, code = r.stdout, r.returncode
+    except subprocess.TimeoutExpired as e:
+        out, code = (e.stdout or b"").decode(errors="replace") if isinstance(e.stdout, bytes) else (e.stdout or ""), 124
+    shutil.rmtree(cache, ignore_errors=True)
+    extra = {}
+    m = re.findall(r"execs: (\d+)", out)
+    if m:
+        extra["native_fuzz_execs"] = int(m[-1])
+    m = re.findall(r"new interesting: \d+ \(total: (\d+)\)", out)
+    if m:
+        extra["native_fuzz_corpus_entries"] = int(m[-1])
+    extra["native_fuzz_seconds"] = int(time.time() - t0)
+    viols, notes = [], []
+    new = (set(os.listdir(tdir)) if os.path.isdir(tdir) else set()) - before
+    if code != 0 and ("--- FAIL" in out or "panic:" in out):
+        rdir = os.path.join(OUT, "replays", pid)
+        os.makedirs(rdir, exist_ok=True)
+        open(os.path.join(rdir, "%s-fuzz.log" % tier), "w").write(out[-100000:])
+        if new:
+            for n in sorted(new):
+                dst = os.path.join(rdir, "%s-fuzz-%s" % (tier, n))
+                shutil.move(os.path.join(tdir, n), dst)
+                viols.append(dst)
+        else:
+            viols.append(os.path.join(rdir, "%s-fuzz.log" % tier))
+        print(out[-3000:])
+    elif code != 0:
+        notes.append("native fuzzing stage did not run to completion (exit %s): inconclusive for that stage" % code)
+        print("FUZZ STAGE INFRA:\n" + out[-2000:])
+    for n in new:  # never leave generated inputs in the source tree
+        try:
+            os.remove(os.path.join(tdir, n))
+        except OSError:
+            pass
+    return viols, notes, extra
+
+
 def load_kf():
     p = os.path.join(HERE, "known_findings.json")
     try:
@@ -179,18 +233,33 @@ def run_check(pid, tier, seed, replay=None):
                        VERIF_BIN=work, VERIF_SEED=str(seed), VERIF_KF=os.path.join(HERE, "known_findings.json"),
                        VERIF_SCRATCH=os.path.join(work, "s%d" % k, "data"), VERIF_REPO=REPO,
                        VERIF_HARNESS=hdir, VERIF_REPLAY_OUT=os.path.join(sd, "replays"))
-            if replay and not replay.endswith(".fail"):
+            is_fuzz_input = bool(replay) and cfg.get("fuzz") and open(replay, "rb").read(16).startswith(b"go test fuzz")
+            if is_fuzz_input:
+                fdir = os.path.join(sd, "testdata", "fuzz", cfg["fuzz"]["target"])
+                os.makedirs(fdir, exist_ok=True)
+                shutil.copy(replay, os.path.join(fdir, "replayed"))
+            elif replay and not replay.endswith(".fail"):
                 env["VERIF_REPLAY"] = os.path.abspath(replay)
             env.update({k2: str(v) for k2, v in (cfg.get("env") or {}).items()})
             env.update({k2: str(v) for k2, v in (tcfg.get("env") or {}).items()})
             os.makedirs(env["VERIF_SCRATCH"])
-            args = [binp, "-test.run", "^%s$" % cfg["test"], "-test.timeout", "%ds" % (timeout + 60),
+            runpat = "^%s$" % cfg["test"]
+            fz = cfg.get("fuzz")
+            if fz and k == 0 and not replay:
+                # seeds and committed corpus of the native fuzz target run as plain tests in every tier
+                runpat = "^(%s|%s)$" % (cfg["test"], fz["target"])
+                corp = os.path.join(HARNESS, "props", "testdata", "fuzz", fz["target"])
+                if os.path.isdir(corp):
+                    shutil.copytree(corp, os.path.join(sd, "testdata", "fuzz", fz["target"]))
+            args = [binp, "-test.run", runpat, "-test.timeout", "%ds" % (timeout + 60),
                     "-test.count=1", "-rapid.checks=%d" % checks]
             if steps:
                 args.append("-rapid.steps=%d" % steps)
             if env.get("VERIF_SHRINK"):
                 args.append("-rapid.shrinktime=" + env["VERIF_SHRINK"])
-            if replay and replay.endswith(".fail"):
+            if is_fuzz_input:
+                args[2] = "^%s$/^replayed$" % cfg["fuzz"]["target"]
+            elif replay and replay.endswith(".fail"):
                 args.append("-rapid.failfile=" + os.path.abspath(replay))
             else:
                 args.append("-rapid.seed=%d" % shard_seed(seed, k))
@@ -232,8 +301,14 @@ def run_check(pid, tier, seed, replay=None):
                     viols.append(replay if replay else base + ".log")
             else:
                 infra.append((k, results[k], log[-2000:]))
-        wall = time.time() - t0
         notes = []
+        if cfg.get("fuzz") and tier == "thorough" and not replay and not viols:
+            fv, fnotes, fextra = fuzz_stage(pid, cfg, hdir, tier, seed)
+            viols += fv
+            notes += fnotes
+            for k2, v2 in fextra.items():
+                ev["extra"][k2] = ev["extra"].get(k2, 0) + v2
+        wall = time.time() - t0
         if timed_out:
             notes.append("time budget hit: inconclusive for the shards that were stopped")
         write_evidence(pid, cfg, tier, seed, ev, wall, len(viols), shards, notes)
